@@ -29,7 +29,7 @@ SIG = {
     # ---- defined functions (result sorts for `opaque=`) ------------------------------------------------------------
     'ccm_flags': 'int[nat]', 'ccm_b0': 'bytes', 'ccm_hdr': 'bytes', 'ccm_hdr_len': 'int[nat]', 'ccm_ctr0': 'bytes',
     'ccm_s0': 'bytes', 'ccm_fmt': 'bytes', 'ccm_tag': 'bytes', 'ccm_crypt': 'bytes', 'zpad': 'bytes', 'up16': 'int[nat]',
-    'ccm_a_end': 'int[nat]', 'ccm_p_start': 'int[nat]',
+    'pow256': 'int[nat]', 'ccm_a_start': 'int[nat]', 'ccm_a_end': 'int[nat]', 'ccm_p_start': 'int[nat]',
     's2v_dbl': 'bytes', 's2v_final': 'bytes', 'siv_ctr0': 'bytes',
     'kw_step': 'bytes', 'kw_unstep': 'bytes',
     'ocb_nonce': 'bytes', 'ocb_ktop_in': 'bytes', 'ocb_offset0': 'bytes', 'ocb_stretch': 'bytes',
@@ -79,6 +79,27 @@ def key_ok(keylen):
 
 
 # ------------------------------------------------------------------------------------------------ CCM, SP 800-38C
+
+def pow256(k):
+    """256**k; written out for the lengths of CCM's Q field (q = 2..8) and of the other fixed-size fields"""
+    if k == 1:
+        return 256
+    if k == 2:
+        return 65536
+    if k == 3:
+        return 16777216
+    if k == 4:
+        return 4294967296
+    if k == 5:
+        return 1099511627776
+    if k == 6:
+        return 281474976710656
+    if k == 7:
+        return 72057594037927936
+    if k == 8:
+        return 18446744073709551616
+    return 256 ** k
+
 
 def up16(n):
     """n rounded up to a multiple of 16"""
@@ -145,6 +166,11 @@ def ccm_tag(key, nonce, t, assoc, plain):
 def ccm_crypt(key, nonce, pos, data):
     """6.1 steps 5-8: data xor the key stream S_1 || S_2 || ... starting `pos` bytes into the message"""
     return xor(data, ctr_ks(key, ccm_ctr0(nonce), 16 + pos, len(data)))
+
+
+def ccm_a_start(alen):
+    """offset in the formatted MAC input where the associated data starts"""
+    return 16 + ccm_hdr_len(alen)
 
 
 def ccm_a_end(alen):
